@@ -4,11 +4,14 @@
      slot3 n k        what _parameters / _buffers / __dict__ of module node n hold under the name k (object identities)
      all_sloteq a b   every module of state a holds, under every name, exactly what it holds in state b (same objects in
                       the same dict; nothing added, nothing lost), same _modules, same type
-     wf_heap h        a name lives in one dict of a regular module, _parameters holds Parameters, the other two do not;
+     wf_heap h        a name lives in one dict of a regular module, _parameters holds Parameters, __dict__ does not
+                      (_buffers may hold either: a Parameter given for a buffer name stays in _buffers, D131 repaired);
                       modules with their own __setattr__ have no tensor in __dict__
      block_ok h b     plain block: no use_state_dict / inplace=True / swap_dest / hand-written swap-back, unique keys,
-                      and [scope]: no buffer name of a regular module is given an nn.Parameter (D131), None entries of a
-                      custom-__setattr__ module are not addressed
+                      and [scope]: None entries of a custom-__setattr__ module are not addressed (a tensordict naming a
+                      None slot is not "same structure / subset")
+     set_tensor_dict  = set_tensor_dict_gen fixed_D131 fixed_D134 (both true: the code after the fix: commits); the
+                      [_gen false] variants are the code as it was found, kept as witnesses
      run_blocks       nested `with p.to_module(m):` blocks with an exception injected at a level (Model/C13_Swap.v);
                       run_blocks = run_blocks_gen fixed_D6 (fixed_D6 = true since the fix: commit for D6) *)
 From Coq Require Import ZArith List String Bool.
@@ -62,11 +65,20 @@ Theorem C13_swap_then_restore : forall fixed x bs lvl st st' evs oc,
 Proof. exact restore_normal. Qed.
 Print Assumptions C13_swap_then_restore.
 
-(* the side condition on buffer names cannot be dropped: D131 *)
-Definition C13_swap_then_restore_unconditional_full_statement : Prop := swap_then_restore_unconditional_statement.
-Theorem C13_swap_then_restore_unconditional_refuted : ~ swap_then_restore_unconditional_statement.
-Proof. exact swap_then_restore_unconditional_refuted. Qed.
-Print Assumptions C13_swap_then_restore_unconditional_refuted.
+(* D131 repaired: a buffer name given an nn.Parameter (the case that used to end with the buffer in __dict__) is inside
+   the theorem's domain now; inside the block the Parameter sits in _buffers, after the exit every slot is back.  The
+   witness on the code as it was found (f131 = false): there and back leaves the buffer in __dict__ *)
+Example C13_ex_buffer_given_Parameter_restored :
+  let '(st', evs, oc) := run_blocks (mkExc XNone 0 false) [ex_b3] 0 ex_st in
+  Forall (fun e => ev_out e = OOk) evs /\ List.length evs = 2%nat /\ all_sloteq st' ex_st
+  /\ match evs with e :: _ => option_map (fun n => slot3 n "r") (hg (ev_state e) 0%Z) = Some (None, Some (Some (oP 12)), None)
+      | [] => False end.
+Proof. exact ex_D131_repaired. Qed.
+Theorem C13_unrepaired_D131_refuted :
+  there_and_back false = Some (None, None, Some (oT 2)) /\ there_and_back true = Some (slot3 ex_root "r")
+  /\ slot3 ex_root "r" = (None, Some (Some (oT 2)), None).
+Proof. exact unrepaired_D131. Qed.
+Print Assumptions C13_unrepaired_D131_refuted.
 
 (* ---- restore_on_exception (D6 repaired: __exit__ inverts a parameter swap also when the body raised): every program,
    every injection point (before / in the k-th module's forward / in a hook / after / after an inner block), every
@@ -92,13 +104,19 @@ Theorem C13_restore_independent_of_source : forall b swap st l1 l2,
 Proof. exact reverse_state_live_irrelevant. Qed.
 Print Assumptions C13_restore_independent_of_source.
 
-(* ---- inplace=True: identities stay, but with a tied tensor the original content is not written back (D134) *)
-Theorem C13_inplace_tied_values_refuted :
-  let '(st', evs, oc) := run_blocks (mkExc XNone 0 false) [ex_b4] 0 (mkSt ex_heap4 ex_vals FRESH_BASE) in
+(* ---- inplace=True with a tied tensor (D134 repaired: the object met a second time keeps the clone saved the first
+   time): identities stay, the content inside the block is the last supplied value, the original content is back after
+   the exit.  The witness on the code as it was found (f134 = false) ends with the first supplied value *)
+Example C13_ex_inplace_tied_restored :
+  let '(st', evs, oc) := run_blocks (mkExc XNone 0 false) [ex_b4] 0 (mkSt ex_heap4 ex_vals FRESH_BASE []) in
   Forall (fun e => ev_out e = OOk) evs /\ t_heap st' = ex_heap4
-  /\ z_get (t_vals st') 1%Z = Some 1%Z /\ z_get ex_vals 1%Z = Some 10%Z.
-Proof. exact ex_D134. Qed.
-Print Assumptions C13_inplace_tied_values_refuted.
+  /\ z_get (t_vals st') 1%Z = Some 10%Z /\ z_get ex_vals 1%Z = Some 10%Z
+  /\ match evs with e :: _ => z_get (t_vals (ev_state e)) 1%Z = Some 5%Z | [] => False end.
+Proof. exact ex_D134_repaired. Qed.
+Theorem C13_unrepaired_D134_refuted :
+  tied_roundtrip false = Some (5%Z, Some 1%Z) /\ tied_roundtrip true = Some (5%Z, Some 10%Z) /\ z_get ex_vals 1%Z = Some 10%Z.
+Proof. exact unrepaired_D134. Qed.
+Print Assumptions C13_unrepaired_D134_refuted.
 
 (* inplace=True, one leaf: a regular module keeps the very object under the name (and under every other name) *)
 Theorem C13_inplace_keeps_identity : forall n k x st,
@@ -138,9 +156,9 @@ Example C13_ex_exception_restored :
   let '(st', evs, oc) := run_blocks (mkExc XExc 1 true) [ex_b1; ex_b2] 0 ex_st in all_sloteq st' ex_st.
 Proof. exact ex_exception_restored. Qed.
 Example C13_ex_usd_swap_dest :
-  (let '(st', evs, oc) := run_blocks (mkExc XNone 0 false) [ex_b5] 0 (mkSt ex_heap4 ex_vals FRESH_BASE) in
+  (let '(st', evs, oc) := run_blocks (mkExc XNone 0 false) [ex_b5] 0 (mkSt ex_heap4 ex_vals FRESH_BASE []) in
    oc = OOk /\ t_heap st' = ex_heap4)
-  /\ (let '(st', evs, oc) := run_blocks (mkExc XNone 0 false) [ex_b6] 0 (mkSt ex_heap4 ex_vals FRESH_BASE) in
+  /\ (let '(st', evs, oc) := run_blocks (mkExc XNone 0 false) [ex_b6] 0 (mkSt ex_heap4 ex_vals FRESH_BASE []) in
       oc = OOk /\ t_heap st' = ex_heap4).
 Proof. exact ex_usd_swap_dest_run. Qed.
 Example C13_ex_from_module :
